@@ -883,3 +883,294 @@ def raw_argv(rng, args):
         else:
             ws.append("".join(chr(rng.choice([45, 61, 40, 41, 33, 44, 32, 97, 0x31, 0x80, 1])) for _ in range(rng.randint(0, 5))))
     return ws
+
+
+# ---- sub-group arguments (appended) ------------------------------------------------------------------------------
+# A word-level reading of the documented behaviour of a handler with sub-group arguments, written from the
+# documentation and the comments of Handler::processArg — NOT a call of the Lean model.  It covers exactly the
+# well-formed words the sub-group generator produces: `-x`, `-xy` (bundles), `-nVALUE`, `--long`, `--long=VALUE`,
+# bare values; kinds flag / int / str / vec (multi-value); no positional argument, no inversion, no brackets.
+#
+#   * a key designates one argument of a handler over BOTH containers: exact sub-group key, exact plain key, then an
+#     abbreviation, which must be unique over both containers (abbreviations only when the handler allows them);
+#   * after a sub-group key the following elements are offered to the sub handler as long as it takes them; the first
+#     element it does not know goes back to the main handler (so `--sub -m` gives -m to the main handler, and after
+#     `--sub`, `-c` means the sub handler's -c when it has one);
+#   * the sub handler keeps its state between two visits; its own end checks never run (by the code's design:
+#     only the main handler's containers, constraints and handler constraints are checked at the end);
+#   * the sub-group ARGUMENT has the mandatory flag, an optional cardinality and requires/excludes constraints of the
+#     main handler.
+
+class SgThrow(Exception):
+    pass
+
+
+class SgArg:
+    def __init__(self, short, long, kind, mandatory=False):
+        self.short, self.long, self.kind, self.mandatory = short, long, kind, mandatory
+
+    def keyspec(self):
+        if self.short and self.long:
+            return "%s,%s" % (self.short, self.long)
+        return self.short or self.long
+
+    def line(self):
+        return "pa arg key=%s kind=%s%s%s" % (self.keyspec(), self.kind, " multi" if self.kind == "vec" else "",
+                                              " mandatory" if self.mandatory else "")
+
+
+class SgSub:
+    """a sub-group argument: key, settings, and the sub handler (its arguments and abbreviation flag)"""
+    def __init__(self, short, long, args, abbr=1, mandatory=False, card=None, req=None, excl=None):
+        self.short, self.long, self.args, self.abbr = short, long, args, abbr
+        self.mandatory, self.card = mandatory, card
+        self.req, self.excl = req, excl          # (index of a plain main argument, spelling) or None
+
+    keyspec = SgArg.keyspec
+
+    def lines(self):
+        t = "pa sub begin key=%s" % self.keyspec()
+        if self.mandatory:
+            t += " mandatory"
+        if self.card:
+            t += " card=" + self.card
+        t += " abbr=%d" % self.abbr
+        if self.req:
+            t += " req=" + self.req[1]
+        if self.excl:
+            t += " excl=" + self.excl[1]
+        return [t] + [a.line() for a in self.args] + ["pa sub end"]
+
+
+class SgCursor:
+    """position in the element stream: word index, and inside a word the character position (single-dash words) or
+    0 = key / 1 = value (`--long=value`)"""
+    def __init__(self, words, wi=0, ci=0):
+        self.words, self.wi, self.ci = words, wi, ci
+        if ci == 0:
+            self._enter()
+
+    def copy(self):
+        c = SgCursor.__new__(SgCursor)
+        c.words, c.wi, c.ci = self.words, self.wi, self.ci
+        return c
+
+    def assign(self, o):
+        self.wi, self.ci = o.wi, o.ci
+
+    def _enter(self):
+        if self.wi < len(self.words):
+            w = self.words[self.wi]
+            self.ci = 1 if (w.startswith("-") and not w.startswith("--") and len(w) > 1) else 0
+
+    def at_end(self):
+        return self.wi >= len(self.words)
+
+    def cur(self):
+        w = self.words[self.wi]
+        if w.startswith("--") and len(w) > 2:
+            name, eq, val = w[2:].partition("=")
+            return ("S", name) if self.ci == 0 else ("V", val)
+        if w.startswith("-") and len(w) > 1:
+            if self.ci < 0:
+                return ("V", w[-self.ci:])
+            return ("C", w[self.ci])
+        return ("V", w)
+
+    def step(self):
+        w = self.words[self.wi]
+        if w.startswith("--") and len(w) > 2:
+            if self.ci == 0 and "=" in w:
+                self.ci = 1
+                return
+        elif w.startswith("-") and len(w) > 1 and 0 < self.ci < len(w) - 1:
+            self.ci += 1
+            return
+        self.wi += 1
+        self.ci = 0
+        self._enter()
+
+    def rest_as_value(self):
+        """`remArgStrAsVal`: the remaining characters of a single-dash word become the value element"""
+        w = self.words[self.wi]
+        if not w.startswith("--") and w.startswith("-") and 0 < self.ci < len(w) - 1:
+            self.ci = -(self.ci + 1)
+            return True
+        return False
+
+
+class SgHandler:
+    def __init__(self, args, subs=(), abbr=1):
+        self.args, self.subs, self.abbr = args, list(subs), abbr
+        self.vals = [{"flag": 0, "int": 0, "str": "", "vec": []}[a.kind] for a in args]
+        self.vals = [list(v) if isinstance(v, list) else v for v in self.vals]
+        self.cnt = [0] * len(args)
+        self.used = [False] * len(args)
+        self.last = None
+        self.pending = []            # (plain argument index, 'r'|'x')
+        self.sub_called = [0] * len(self.subs)
+        self.sub_cnt = [0] * len(self.subs)
+        self.sub_h = [SgHandler(s.args, (), s.abbr) for s in self.subs]
+        self.long_lookups = []       # long names looked up at this level that were not exact sub-handler business
+
+    def find(self, el):
+        """('sub', j) | ('arg', i) | None; SgThrow when an abbreviation is ambiguous"""
+        typ, k = el
+        if typ == "C":
+            for j, s in enumerate(self.subs):
+                if s.short == k:
+                    return ("sub", j)
+            for i, a in enumerate(self.args):
+                if a.short == k:
+                    return ("arg", i)
+            return None
+        self.long_lookups.append(k)
+        for j, s in enumerate(self.subs):
+            if s.long == k:
+                return ("sub", j)
+        for i, a in enumerate(self.args):
+            if a.long == k:
+                return ("arg", i)
+        if not self.abbr:
+            return None
+        ms = [j for j, s in enumerate(self.subs) if s.long and s.long.startswith(k)]
+        mp = [i for i, a in enumerate(self.args) if a.long and a.long.startswith(k)]
+        if len(ms) + len(mp) > 1:
+            raise SgThrow("ambiguous abbreviation " + k)
+        if ms:
+            return ("sub", ms[0])
+        if mp:
+            return ("arg", mp[0])
+        return None
+
+    def identified(self, i):
+        """constraints of this handler when plain argument i was identified"""
+        for p in list(self.pending):
+            if p[0] == i:
+                if p[1] == "x":
+                    raise SgThrow("excluded")
+                self.pending.remove(p)
+
+    def store(self, i, value):
+        a = self.args[i]
+        self.identified(i)
+        if a.kind in ("flag", "int", "str"):
+            self.cnt[i] += 1
+            if self.cnt[i] > 1:
+                raise SgThrow("cardinality")
+        self.used[i] = True
+        if a.kind == "flag":
+            self.vals[i] = 1
+        elif a.kind == "int":
+            if not (value.lstrip("+-").isdigit() and value.lstrip("+-") != ""):
+                raise SgThrow("conversion")
+            self.vals[i] = int(value)
+        elif a.kind == "str":
+            self.vals[i] = value
+        else:
+            for t in value.split(","):
+                if t == "":
+                    continue
+                if not t.lstrip("+-").isdigit():
+                    raise SgThrow("conversion")
+                self.vals[i].append(int(t))
+
+    def eval_single(self, cur):
+        el = cur.cur()
+        if el[0] == "V":
+            if self.last is not None:
+                self.store(self.last, el[1])
+                return "consumed"
+            return "unknown"
+        r = self.find(el)
+        if r is not None and r[0] == "sub":
+            j = r[1]
+            s = self.subs[j]
+            # constraints of the main handler, cardinality of the sub-group argument
+            for p in list(self.pending):
+                if p[0] == ("sub", j):
+                    if p[1] == "x":
+                        raise SgThrow("excluded")
+                    self.pending.remove(p)
+            if s.card:
+                c = s.card.split(":")
+                hi = int(c[1]) if c[0] in ("max", "exact") else int(c[2])
+                self.sub_cnt[j] += 1
+                if self.sub_cnt[j] > hi:
+                    raise SgThrow("cardinality")
+            self.sub_called[j] = 1
+            for typ, con in (("r", s.req), ("x", s.excl)):
+                if con is not None and (con[0], typ) not in self.pending:
+                    self.pending.append((con[0], typ))
+            sc = cur.copy()
+            sc.step()
+            while not sc.at_end() and self.sub_h[j].eval_single(sc) == "consumed":
+                cur.assign(sc)
+                sc.step()
+            self.last = None
+            return "consumed"
+        self.last = None
+        if r is None:
+            return "unknown"
+        i = r[1]
+        a = self.args[i]
+        if a.kind == "vec":
+            self.last = i
+        if a.kind == "flag":
+            self.store(i, None)
+            return "consumed"
+        c2 = cur.copy()
+        if not c2.rest_as_value():
+            c2.step()
+        if c2.at_end() or c2.cur()[0] != "V":
+            raise SgThrow("requires value")
+        self.store(i, c2.cur()[1])
+        cur.assign(c2)
+        return "consumed"
+
+    def evaluate(self, words):
+        cur = SgCursor(words)
+        while not cur.at_end():
+            if self.eval_single(cur) == "unknown":
+                raise SgThrow("unknown argument")
+            cur.step()
+        for i, a in enumerate(self.args):
+            if a.mandatory and not self.used[i]:
+                raise SgThrow("mandatory missing")
+        for j, s in enumerate(self.subs):
+            if s.mandatory and not self.sub_called[j]:
+                raise SgThrow("mandatory sub-group argument missing")
+            if s.card and self.sub_cnt[j] > 0:
+                c = s.card.split(":")
+                if (c[0] == "exact" and self.sub_cnt[j] != int(c[1])) or (c[0] == "range" and self.sub_cnt[j] < int(c[1])):
+                    raise SgThrow("cardinality not met")
+        if any(p[1] == "r" for p in self.pending):
+            raise SgThrow("required argument missing")
+        # by the code's design nothing of a sub handler is checked at the end (its mandatory arguments included)
+
+    def show(self):
+        out = []
+        for i, a in enumerate(self.args):
+            v = self.vals[i]
+            if a.kind == "flag":
+                out.append("%d:f=%d" % (i, v))
+            elif a.kind == "int":
+                out.append("%d:i=%d" % (i, v))
+            elif a.kind == "str":
+                out.append("%d:s=%s" % (i, hx(v)))
+            else:
+                out.append("%d:v=[%s]" % (i, ",".join(map(str, v))))
+        return "".join(" " + x for x in out)
+
+
+def sg_expect(plain, subs, abbr, words):
+    """(expected result line or 'throw', long names looked up at the main level)"""
+    h = SgHandler(plain, subs, abbr)
+    try:
+        h.evaluate(list(words))
+    except SgThrow:
+        return "throw", h.long_lookups
+    out = "ok" + h.show()
+    for j in range(len(subs)):
+        out += " | s%d=%d%s" % (j, h.sub_called[j], h.sub_h[j].show())
+    return out, h.long_lookups
